@@ -10,6 +10,7 @@
 3. /verif/seeded/<id>/ gets patch.diff, demo.py, meta.json (what it breaks, what it needs, what was run, outcome)."""
 import os, sys, json, subprocess, shutil, tempfile, re, argparse, time
 VERIF = '/verif'
+RUN = os.environ.get('SEED_RUN_VERIF', VERIF)     # a private copy of /verif in which the checks are run (parallel evaluation)
 def sh(cmd, cwd=None, env=None, timeout=3600):
     p = subprocess.run(cmd, shell=True, cwd=cwd, env=env, stdout=subprocess.PIPE, stderr=subprocess.STDOUT, text=True, timeout=timeout)
     return p.returncode, p.stdout
@@ -60,7 +61,7 @@ if confirmed:
     try:
         for c in checks:
             t = time.time()
-            rc, out = sh(f'./check {c} --tier {a.tier}', cwd=VERIF, timeout=7200, env=dict(os.environ, VERIF_REPO=target))
+            rc, out = sh(f'./check {c} --tier {a.tier}', cwd=RUN, timeout=7200, env=dict(os.environ, VERIF_REPO=target))
             lines = [l for l in out.split('\n') if l.startswith('VIOLATION') or l.startswith(c + ' ')]
             results[c] = {'exit': rc, 'lines': lines, 'wall_s': round(time.time() - t, 1), 'against': 'repo itself' if inrepo else 'scratch worktree of /repo with the patch (VERIF_REPO)'}
             print(f'  check {c}: exit {rc}: ' + ' | '.join(lines)[:300])
@@ -69,7 +70,7 @@ if confirmed:
             sh('git -C /repo checkout -- .')
         else:
             sh(f'git -C /repo worktree remove --force {target}')
-        sh('/venv/bin/python translator/regions.py /repo', cwd=VERIF)
+        sh('/venv/bin/python translator/regions.py /repo', cwd=RUN)
     meta['checks'] = results
     meta['detected'] = any(r['exit'] == 1 for r in results.values())
     meta['detected_with_replay'] = any(r['exit'] == 1 and any('no-failing-input-found' not in l for l in r['lines'] if l.startswith('VIOLATION')) for r in results.values())
